@@ -1,8 +1,132 @@
-/- Driver handler of C13: protocol line (already split into tokens, without the leading "c13") -> answer. -/
+/- Driver handler of C13: protocol line tokens -> one answer line.
+     c13 op <PyOpName> <L> <R>                 fixup(L, op, R) on operands that may be arrays (`opFixup`), the scalar
+                                               operation being C10's `Pycel.Ops.fixupPy` (USub: L is ignored, send `z`)
+     c13 fn <name> <arg>…                      the cse-wrapped library function `name` (`cseWrap`), cse parameters from
+                                               Generated/CseMeta.lean, scalar semantics from the small table `scalarFn`
+     c13 fit <h> <w> <res>                     fit_to_range(res) for an h×w target
+     c13 wb <r0> <c0> <h> <w> op|fn|val …      an array formula entered over the h×w target at (row r0, column c0):
+                                               `<evaluate(target)> ; <table of member cells>`
+   Operands / results: a scalar token or `a:<rows>:<cols> v…`; `!raise` = the evaluation raises.
+-/
 import Pycel.Model.Proto
+import Pycel.Model.Ops
+import Pycel.Model.Arrays
+import Pycel.Generated.CseMeta
 namespace Pycel.Drv.C13
+open Pycel Pycel.Arrays
+
+def toOpnd : Arg → Opnd
+  | .scalar v => .scalar v
+  | .arr a => .arr a
+
+def showRes : Option Opnd → String
+  | none => "!raise"
+  | some (.scalar v) => (showCell v).enc      -- eval_func shows an empty scalar value as 0
+  | some (.arr a) => encArr a
+
+/-- scalar operator as a `Val → Val → Val` (the `nonfinite` outcome cannot arise from the small pool) -/
+def scalarOp (op : Ops.Op) (l r : Val) : Val :=
+  match Ops.fixupPy (if op = .usub then .str Ops.emptySentinel else l) op r with
+  | .val v => v
+  | .nonfinite => .err .num
+
+/-! scalar semantics of a few wrapped library functions, on the pool the harness uses
+    (integers, logicals, blank, non-numeric text, errors).  Inner wrappers as applied by apply_meta:
+    error_string_wrapper, then nums_wrapper / strs_wrapper, then the function. -/
+
+def firstErr : List Val → Option Err
+  | [] => none
+  | .err e :: _ => some e
+  | _ :: rest => firstErr rest
+
+/-- excel_math_func inner part: first error argument, then coerce_to_number(convert_all) on every argument,
+    #VALUE! unless all are numbers -/
+def mathFn (k : List Rat → Val) (args : List Val) : Val :=
+  match firstErr args with
+  | some e => .err e
+  | none =>
+    let nums := args.map (Ops.coerceToNumber true)
+    if nums.all Val.isNum then k (nums.filterMap fun | .num q => some q | _ => none) else .err .value
+
+def pyMod (a b : Rat) : Val :=
+  if b = 0 then .err .div0 else .num (a - b * ((a / b).floor : Rat))
+
+/-- logical._clean_logical -/
+def cleanLogical : Val → Except Err Bool
+  | .err e => .error e
+  | .str s =>
+    let l := Ops.lower s
+    if l == "true".toList then .ok true else if l == "false".toList then .ok false else .error .value
+  | .blank => .ok false
+  | .num q => .ok (q != 0)
+  | .bool b => .ok b
+
+def scalarFn (name : String) (args : List Val) : Val :=
+  match name, args with
+  | "mod", [a, b] => mathFn (fun | [x, y] => pyMod x y | _ => .err .value) [a, b]
+  | "abs_", [a] => mathFn (fun | [x] => .num (if x < 0 then -x else x) | _ => .err .value) [a]
+  | "sign", [a] => mathFn (fun | [x] => .num (if x < 0 then -1 else if x = 0 then 0 else 1) | _ => .err .value) [a]
+  | "isnumber", [a] => .bool a.isNum
+  | "if_", [t, a, b] =>
+    match cleanLogical t with
+    | .error e => .err e
+    | .ok c => if c then a else b
+  | "exact", [a, b] =>
+    -- strs_wrapper: coerce_to_string on both, first error returned
+    match Ops.coerceToString a, Ops.coerceToString b with
+    | .err e, _ => .err e
+    | _, .err e => .err e
+    | x, y => .bool (x == y)
+  | _, _ => .err .name
+
+/-- the per-element function handed to `cseWrap`: every argument is a scalar after picking -/
+def gOf (name : String) (args : List Opnd) : Val :=
+  scalarFn name (args.map fun | .scalar v => v | .arr _ => .err .value)
+
+def cseOf (name : String) (k : Nat) : Bool := (Gen.cseParams name).contains k
+
+/-- value of a formula: `op <name> L R`, `fn <name> args…`, `val <res>` -/
+def formulaValue : List String → Option (Option Opnd)
+  | "op" :: o :: rest =>
+    match Ops.Op.ofName? o, decArgs? rest with
+    | some op, some [l, r] => some (opFixup (scalarOp op) (toOpnd l) (toOpnd r))
+    | _, _ => none
+  | "fn" :: name :: rest =>
+    match decArgs? rest with
+    | some args => some (cseWrap (gOf name) (cseOf name) (args.map toOpnd))
+    | none => none
+  | "val" :: rest =>
+    match decArgs? rest with
+    | some [r] => some (some (toOpnd r))
+    | _ => none
+  | _ => none
 
 def handle : List String → String
+  | "c13" :: "fn" :: name :: rest =>
+    -- functions outside the small scalar table are compared by the implementation-only oracle alone
+    if Gen.cseParams name = [] then "!unmodelled" else
+    match formulaValue ("fn" :: name :: rest) with
+    | some v => showRes v
+    | none => "!bad-arg"
+  | "c13" :: "fit" :: h :: w :: rest =>
+    match h.toNat?, w.toNat?, decArgs? rest with
+    | some h, some w, some [r] => encArr (fitToRange (toOpnd r) h w)
+    | _, _, _ => "!bad-arg"
+  | "c13" :: "wb" :: r0 :: c0 :: h :: w :: rest =>
+    match r0.toNat?, c0.toNat?, h.toNat?, w.toNat?, formulaValue rest with
+    | some r0, some c0, some h, some w, some v =>
+      match v with
+      | none => "!raise"
+      | some res =>
+        if h = 1 ∧ w = 1 then
+          let v := encArr [[singleCell res]]
+          v ++ " ; " ++ v
+        else encArr (evalTarget res h w) ++ " ; " ++ encArr (members res r0 c0 h w)
+    | _, _, _, _, _ => "!bad-arg"
+  | "c13" :: rest =>
+    match formulaValue rest with
+    | some v => showRes v
+    | none => "!bad-arg"
   | _ => "!bad-op"
 
 end Pycel.Drv.C13
